@@ -317,6 +317,7 @@ T_SCHED = T('h_sched.cpp', 'prod', name='h_sched.prod', extra_src=['sched/vf_sch
 DSHIM = _os.path.join(_B.VERIF, 'harness', 'sched', 'vf_delay_shim.h')
 T_THR_TSAN = T('h_thr.cpp', 'tsan', name='h_thr.tsan', fitter_flags=['-include', DSHIM])
 T_THR_PLAIN = T('h_thr.cpp', 'plain-g', name='h_thr.plain-g', fitter_flags=['-include', DSHIM])
+T_THR_PROD = T('h_thr.cpp', 'prod', name='h_thr.prod', fitter_flags=['-include', DSHIM])
 
 
 def c12_passes(tier, sc):
@@ -329,6 +330,9 @@ def c12_passes(tier, sc):
              wrapper=['valgrind', '--tool=helgrind', '-q', '--error-limit=no', '--history-level=approx', '--num-callers=12'])
     h.scan = 'helgrind'
     ps.append(h)
+    # worker counts 1..32 on real fits (production build; BLAS and OpenMP pinned to one thread, only the library's own worker count varies)
+    ps.append(Pass('workers', 'h_thr.prod', 'C12fit', n(tier, 12, 96, sc), chunk=1, stall_s=900,
+                   env={'OPENBLAS_NUM_THREADS': '1', 'OMP_NUM_THREADS': '1', 'GOTO_NUM_THREADS': '1'}))
     return ps
 
 
@@ -340,13 +344,14 @@ PROPS['C12'] = dict(
                'and every schedule must return x, H1, residual and the return value bit-identical to the single-worker run. Real-thread passes under ThreadSanitizer and helgrind with injected delays complement it.',
     level_note=NOTE_COMMON + '; exhaustive only up to the stated preemption bound; OpenBLAS/CHOLMOD internals are single-threaded by configuration',
     technique='controlled (systematic + randomized) scheduler over the real synchronisation code + TSan/helgrind with delay injection',
-    targets=[T_SCHED, T_THR_TSAN, T_THR_PLAIN],
+    targets=[T_SCHED, T_THR_TSAN, T_THR_PLAIN, T_THR_PROD],
     passes=c12_passes,
     level='exploration',
     rule='case = (configuration, problem seed, shard): shard 0 = bounded systematic enumeration of schedules by prefix replay, other shards = 120-400 random/PCT schedules; '
          'distinct_nontrivial counts distinct executed schedules (hash of the full choice sequence) that ran to completion or to a decided deadlock',
     assumptions=ASSUME_COMMON + ['scheduling granularity = pthread synchronisation calls; data accesses between them are serialised by the baton (data races are the business of the TSan/helgrind passes)'],
-    require={'any': {'distinct-schedules': 3000, 'systematic-explorations-complete': 4, 'configurations': 16, 'schedules:pct': 500}},
+    require={'any': {'distinct-schedules': 3000, 'systematic-explorations-complete': 4, 'configurations': 16, 'schedules:pct': 500,
+                     'real-fits:worker-count-comparisons': 40, 'real-fits:problems-that-reached-the-parallel-line-search': 6}},
 )
 
 
